@@ -315,7 +315,11 @@ func errLeaves(c *Config, v ssa.Value, depth int) []errLeaf {
 		return out
 	case *ssa.Phi:
 		var out []errLeaf
-		for _, e := range x.Edges {
+		dead := phiDeadEdges(x)
+		for i, e := range x.Edges {
+			if dead[i] {
+				continue
+			}
 			out = append(out, errLeaves(c, e, depth+1)...)
 		}
 		return out
